@@ -106,6 +106,93 @@ Apply(st) ==
         /\ hist' = Append(hist, st)
         /\ bad' = EventFails(Ev(st, post), reg)
 
+\* a chain of three tensors  r1 -(bond 1)- r2 -(bond 2)- r3  with at most one dangling leg (on r1 or on r3)
+ConjIx(ix) == [dual |-> ~ix.dual, cm |-> ix.cm]
+NewChain ==
+  /\ "chain" \in OpSet /\ Cardinality(Regs) = 0
+  /\ \E i1, i2 \in Indices : \E dang \in {"none", "left", "right"} : \E f \in Indices :
+       LET ixs1 == (IF dang = "left" THEN <<f>> ELSE <<>>) \o <<i1>>
+           ixs2 == <<ConjIx(i1), i2>>
+           ixs3 == <<ConjIx(i2)>> \o (IF dang = "right" THEN <<f>> ELSE <<>>)
+       IN /\ (dang = "none" => f = i1)      \* f is irrelevant then: do not multiply states
+          /\ \E d1 \in Descs(ixs1, 1, 3) : \E d2 \in Descs(ixs2, 11, 5) : \E d3 \in Descs(ixs3, 21, 7) :
+               /\ d1.drop \subseteq 0..(NSectors(ixs1, d1.charge) - 1)
+               /\ d2.drop \subseteq 0..(NSectors(ixs2, d2.charge) - 1)
+               /\ d3.drop \subseteq 0..(NSectors(ixs3, d3.charge) - 1)
+               /\ reg' = ("r1" :> Build(d1)) @@ ("r2" :> Build(d2)) @@ ("r3" :> Build(d3))
+               /\ hist' = <<[op |-> "new", out |-> <<"r1">>, desc |-> d1, chain |-> dang],
+                            [op |-> "new", out |-> <<"r2">>, desc |-> d2, chain |-> dang],
+                            [op |-> "new", out |-> <<"r3">>, desc |-> d3, chain |-> dang]>>
+               /\ bad' = {}
+\* the two contractions of a route, in either operand order and any mode: first a neighbouring pair of leaves,
+\* then the intermediate with the remaining leaf
+\* leg identities: "b1", "b2" are the bonds, "f" the dangling leg
+LeafLegs(r, dang) ==
+  CASE r = "r1" -> (IF dang = "left" THEN <<"f">> ELSE <<>>) \o <<"b1">>
+    [] r = "r2" -> <<"b1", "b2">>
+    [] r = "r3" -> <<"b2">> \o (IF dang = "right" THEN <<"f">> ELSE <<>>)
+PosOf(seq, x) == CHOOSE k \in 1..Len(seq) : seq[k] = x
+SharedLeg(la, lb) == CHOOSE x \in SeqRange(la) : x \in SeqRange(lb)
+R4Legs(dang) ==
+  LET a == hist[4].in[1]
+      b == hist[4].in[2]
+      la == LeafLegs(a, dang)
+      lb == LeafLegs(b, dang)
+      x == SharedLeg(la, lb)
+  IN SelectSeq(la, LAMBDA l : l # x) \o SelectSeq(lb, LAMBDA l : l # x)
+ChainLeaf(r) == r \in {"r1", "r2", "r3"}
+Adjacent(a, b) == {a, b} \in {{"r1", "r2"}, {"r2", "r3"}}
+\* which axes carry the bond between chain members (by construction of NewChain)
+ChainAxes(a, b, dang) ==
+  LET off == IF dang = "left" THEN 1 ELSE 0 IN
+  CASE a = "r1" /\ b = "r2" -> <<1 + off, 1>>
+    [] a = "r2" /\ b = "r1" -> <<1, 1 + off>>
+    [] a = "r2" /\ b = "r3" -> <<2, 1>>
+    [] a = "r3" /\ b = "r2" -> <<1, 2>>
+OpChainStep ==
+  "chain" \in OpSet /\ Len(hist) \in {3, 4} /\ "chain" \in DOMAIN hist[1] /\
+  \E mode \in {"fused", "blockwise"} :
+    IF Len(hist) = 3
+    THEN \E a, b \in {"r1", "r2", "r3"} : Adjacent(a, b) /\
+           LET ax == ChainAxes(a, b, hist[1].chain) IN
+           Apply(Step("tensordot", [axes |-> <<<<ax[1] - 1>>, <<ax[2] - 1>>>>, mode |-> mode, preserve_array |-> TRUE],
+                      <<a, b>>, <<"r4">>, "symmray"))
+    ELSE LET used == SeqRange(hist[4].in)
+             rest == CHOOSE r \in {"r1", "r2", "r3"} : r \notin used
+         IN \E flip \in BOOLEAN :
+              LET dang == hist[1].chain
+                  l4 == R4Legs(dang)
+                  lr == LeafLegs(rest, dang)
+                  x == SharedLeg(l4, lr)
+                  a == IF flip THEN rest ELSE "r4"
+                  b == IF flip THEN "r4" ELSE rest
+                  pa == IF flip THEN PosOf(lr, x) ELSE PosOf(l4, x)
+                  pb == IF flip THEN PosOf(l4, x) ELSE PosOf(lr, x)
+              IN Apply(Step("tensordot", [axes |-> <<<<pa - 1>>, <<pb - 1>>>>, mode |-> mode, preserve_array |-> TRUE],
+                            <<a, b>>, <<"r5">>, "symmray"))
+\* C04 in the model: every route gives the tensor of the reference route (r1 r2) r3
+GradedSame(x, y) ==
+  IF ~IsFermi(x) THEN Elem(x) = Elem(y) /\ x.charge = y.charge
+  ELSE /\ x.charge = y.charge /\ LabelsOK(x.oddpos) /\ LabelsOK(y.oddpos)
+       /\ SameLabelSet(Remaining(x.oddpos), Remaining(y.oddpos))
+       /\ FlipDen(Den(x), ResolveSign(x.oddpos)).E
+            = FlipDen(Den(y), ResolveSign(y.oddpos) * ReorderSign(Remaining(y.oddpos), Remaining(x.oddpos))).E
+ChainRef ==
+  LET dang == hist[1].chain
+      a12 == ChainAxes("r1", "r2", dang)
+      t == IF Kind = "fermionic" THEN IFTensordot(reg["r1"], reg["r2"], <<a12[1]>>, <<a12[2]>>, "blockwise")
+           ELSE ITensordotBlockwise(reg["r1"], reg["r2"], <<a12[1]>>, <<a12[2]>>)
+      \* r4' = legs of r1 without the bond, then the second leg of r2
+      k == Rank(t)
+  IN IF Kind = "fermionic" THEN IFTensordot(t, reg["r3"], <<k>>, <<1>>, "blockwise")
+     ELSE ITensordotBlockwise(t, reg["r3"], <<k>>, <<1>>)
+RouteIndependent ==
+  (Len(hist) = 5 /\ "chain" \in DOMAIN hist[1] /\ "r5" \in Regs /\ LabelsOK(reg["r1"].oddpos \o reg["r2"].oddpos \o reg["r3"].oddpos))
+    => LET got == reg["r5"]
+           ref == ChainRef
+       IN \* the dangling leg may sit at either end of the result: rank <= 1, nothing to permute
+          GradedSame(got, ref)
+
 \* operations returning a number / a dense array: the value is given by the implementation-shaped operators
 ApplyValue(st, val) ==
   LET post == (st.out[1] :> val) @@ reg IN
@@ -204,6 +291,8 @@ Next ==
   \/ NewPartner
   \/ NewSibling
   \/ NewVector
+  \/ NewChain
+  \/ OpChainStep
   \/ (Cardinality(Regs) >= 1 /\ Len(hist) < MaxDepth /\
         (OpTranspose \/ OpConj \/ OpExpand \/ OpSqueeze \/ OpFuse \/ OpUnfuse \/ OpTensordot \/ OpPhase
          \/ OpArith \/ OpDiag \/ OpReduce \/ OpEinsum))
